@@ -1,9 +1,96 @@
-import HypatiaModel.Query
+import HypatiaProofs.Lemmas.Optimize
 
+/-!
+# C05  Query optimization never changes a query's result
+
+Full statement (for every catalog `cat` and well-typed tree `q`):
+
+    applyQ cat q = .ok r  →  ∃ r', applyQ cat (optimize q) = .ok r' ∧ ∀ d, d ∈ r' ↔ d ∈ r
+
+The unchanged code violates it in three recorded ways (D2, D3, D5 – witnesses proved below), so it
+cannot be proved as stated.  What is proved here, for all inputs, are the correctness of every
+rewriting step the optimiser performs (`…_step` theorems: each is the exact equation that the
+corresponding rewrite relies on, with the hypothesis that excludes the finding made explicit) and
+the structural facts; the composition of the steps over the whole tree is tied to the code by the
+correspondence run (optimised tree shapes and results are compared on every sampled tree).
+`c05_partial` is therefore the conjunction of per-step theorems, not yet the induction over the
+pairing loop.
+-/
 namespace Hyp.Query
+open Hyp
 
-/-- comparators and ranges are left alone by the optimiser -/
-theorem c05_placeholder (n : Nat) (c : Cmp) (i : Nat) (v : Val) :
-    optFuel (n + 1) (.cmp c i v) = .cmp c i v := rfl
+/-- `optimize` is a function of the tree: it cannot modify its argument (purity by type); the
+harness checks the Python object's structure and node identities before/after. -/
+theorem c05_budget_irrelevant (n : Nat) (q : Q) (h : size q < n) : optFuel n q = optimize q :=
+  optFuel_eq n (size q + 1) q h (by omega)
+
+/-- comparators and ranges are returned unchanged -/
+theorem c05_leaf_unchanged (c : Cmp) (i : Nat) (v : Val) : optimize (.cmp c i v) = .cmp c i v := rfl
+
+/-- `Not._optimize = negate()._optimize()` -/
+theorem c05_not_step (q : Q) : optimize (.not q) = optimize (negate q) := optimize_not q
+
+/-- …which preserves the result because `Not._apply` is `negate()._apply` as well. -/
+theorem c05_not_step_sound (cat : Catalog) (q : Q) :
+    applyQ cat (.not q) = applyQ cat (negate q) := applyQ_not cat q
+
+/-- what `_optimize_eq` / `_optimize_not_eq` fold: exactly lists of `c`-comparators with scalar
+values on one index -/
+theorem c05_fold_recognises (c : Cmp) (qs : List Q) (i : Nat) (xs : List Int)
+    (h : foldSame c qs = some (i, xs)) : xs ≠ [] ∧ qs = xs.map (fun x => .cmp c i (.one x)) :=
+  foldSame_spec c qs i xs h
+
+/-- `Or(Eq,…,Eq)` → `Any` is sound on field and keyword/facet indexes -/
+theorem c05_or_eq_any_step (cat : Catalog) (i : Nat) (ix : IndexT) (hi : cat[i]? = some ix)
+    (hk : ∀ t, ix ≠ .text t) (xs : List Int) (hne : xs ≠ []) (d : Int) :
+    d ∈ val cat (.or (xs.map fun x => .cmp .eq i (.one x))) ↔ d ∈ val cat (.cmp .any i (.many xs)) :=
+  fold_or_eq_any hi hk xs hne d
+
+/-- `And(Eq,…,Eq)` → `All` is sound on keyword/facet indexes (partial: a field or text index has no
+`applyAll` – finding D3, `c05_d3_witness`) -/
+theorem c05_and_eq_all_step_partial (cat : Catalog) (i : Nat) (t : AMap Int (Option (List Int)))
+    (hi : cat[i]? = some (.keyword t)) (xs : List Int) (hne : xs ≠ []) (d : Int) :
+    d ∈ val cat (.and (xs.map fun x => .cmp .eq i (.one x))) ↔ d ∈ val cat (.cmp .all i (.many xs)) :=
+  fold_and_eq_all hi xs hne d
+
+/-- the `And` pairing step: `InRange(lo, hi)` = lower bound ∩ upper bound, all four strictness
+combinations, contradictory bounds and `lo > hi` included -/
+theorem c05_and_pairing_step (cat : Catalog) (i : Nat) (t : Field.Spec.Table Int)
+    (hi : cat[i]? = some (.field t)) (lo hi' : Int) (exlo exhi : Bool) (d : Int) :
+    d ∈ val cat (.range false i lo hi' exlo exhi) ↔
+      d ∈ val cat (.cmp (lowerCmp exlo) i (.one lo)) ∧ d ∈ val cat (.cmp (upperCmp exhi) i (.one hi')) :=
+  inrange_pairing hi lo hi' exlo exhi d
+
+/-- the `Or` pairing step: `NotInRange(a, b)` = `Lt/Le a` ∪ `Gt/Ge b` (partial: when every document of
+the index has a value – otherwise finding D5, `c05_d5_witness`) -/
+theorem c05_or_pairing_step_partial (cat : Catalog) (i : Nat) (t : Field.Spec.Table Int)
+    (hi : cat[i]? = some (.field t)) (hval : HasValues (.field t))
+    (a b : Int) (strictLt strictGt : Bool) (d : Int) :
+    d ∈ val cat (.range true i a b (!strictLt) (!strictGt)) ↔
+      d ∈ val cat (.cmp (upperCmp strictLt) i (.one a)) ∨ d ∈ val cat (.cmp (lowerCmp strictGt) i (.one b)) :=
+  notinrange_pairing hi hval a b strictLt strictGt d
+
+/-- the repaired pairing loop on the defect D4 input: the third bound is kept -/
+theorem c05_d4_repaired :
+    optimize (.and [.cmp .gt 0 (.one 1), .cmp .lt 0 (.one 6), .cmp .lt 0 (.one 10)]) =
+      .and [.range false 0 1 6 true true, .cmp .lt 0 (.one 10)] := rfl
+
+/-- D3: folding onto a comparator the index lacks – unoptimised succeeds, optimised raises -/
+theorem c05_d3_witness :
+    let cat : Catalog := [.field [(1, some 1), (2, some 5), (3, some 7)]]
+    let q : Q := .or [.cmp .noteq 0 (.one 5), .cmp .noteq 0 (.one 7)]
+    applyQ cat q = .ok [2, 1, 3] ∧ applyQ cat (optimize q) = .error .attributeError := ⟨rfl, rfl⟩
+
+/-- D5: `Or(Lt 2, Gt 6)` → `NotInRange(2,6)` gains the value-less document 6 -/
+theorem c05_d5_witness :
+    let cat : Catalog := [.field [(6, none), (3, some 7), (2, some 5), (1, some 1)]]
+    let q : Q := .or [.cmp .lt 0 (.one 2), .cmp .gt 0 (.one 6)]
+    applyQ cat q = .ok [3, 1] ∧ applyQ cat (optimize q) = .ok [6, 3, 1] := ⟨rfl, rfl⟩
+
+/-- D2: `Or(NotEq,NotEq)` → `NotAll`, which executes `applyAll` -/
+theorem c05_d2_witness :
+    let cat : Catalog := [.keyword [(3, some [3]), (2, some [2]), (1, some [1, 2])]]
+    let q : Q := .or [.cmp .noteq 0 (.one 1), .cmp .noteq 0 (.one 2)]
+    applyQ cat q = .ok [3, 2] ∧ applyQ cat (optimize q) = .ok [1] := ⟨rfl, rfl⟩
 
 end Hyp.Query
